@@ -62,6 +62,15 @@ func foreignDigError() error {
 	return sub.Invoke(func(needsAbsent) {})
 }
 
+// foreignPanicError: the error of a different container (with RecoverFromPanics) whose constructor panicked; its
+// chain holds that container's dig.PanicError.
+func foreignPanicError() error {
+	sub := dig.New(dig.RecoverFromPanics())
+	type boom struct{}
+	_ = sub.Provide(func() boom { panic("plugin exploded") })
+	return sub.Invoke(func(boom) {})
+}
+
 // InjPanic is the unique value a faulted execution panics with. It is an error value (user code
 // commonly does panic(err)); with fault kind "panicdigerr" it wraps another container's dig error.
 type InjPanic struct {
@@ -168,6 +177,11 @@ type World struct {
 	advance func(time.Duration)
 
 	mon *Monitor // nil: no model-based monitoring (differential-only runs)
+
+	// Options.ReuseInfo: the Info structs shared by all calls of the history
+	pInfo dig.ProvideInfo
+	dInfo dig.DecorateInfo
+	iInfo dig.InvokeInfo
 
 	curOp   int
 	curKind string
@@ -370,6 +384,15 @@ func buildEnc(items []Enc, embed reflect.Type, embedName string, leafType func(i
 				tag := ""
 				if !it.Obj[j].IsObj {
 					tag = leafTag(it.Obj[j].Leaf)
+				} else if embedName == "In" && !((lay == 5 || lay == 6) && it.Obj[j].IsObj) {
+					switch it.Obj[j].Junk {
+					case 1:
+						tag = `optional:"true"`
+					case 2:
+						tag = `name:"zz"`
+					case 3:
+						tag = `name:"zz" optional:"true"`
+					}
 				}
 				sf := reflect.StructField{Name: "F" + strconv.Itoa(j), Type: st, Tag: reflect.StructTag(tag)}
 				if (lay == 5 || lay == 6) && it.Obj[j].IsObj {
@@ -475,6 +498,13 @@ func (w *World) materialize(f *Fn, viaOpt bool) *mat {
 			m.errIdx = len(m.outs) - 1
 		}
 	}
+	if f.HasErr && f.ErrType == 1 && f.Pool == 0 {
+		for i, t := range m.outs {
+			if t == errT {
+				m.outs[i] = reflect.TypeOf((*TErr)(nil))
+			}
+		}
+	}
 	body := func(args []reflect.Value) []reflect.Value { return w.body(m, args) }
 	if f.Pool > 0 {
 		m.val = bindPool(f.Pool-1, m, body)
@@ -567,6 +597,11 @@ func (w *World) body(m *mat, args []reflect.Value) []reflect.Value {
 		ip := &InjPanic{Fn: f.ID, Exec: exec}
 		if fault == "panicdigerr" {
 			ip.Inner = foreignDigError()
+			if (f.ID+exec)%2 == 1 {
+				// ... or another container's recovered panic: the PanicError reported for THIS panic
+				// still has to carry this panic's value
+				ip.Inner = foreignPanicError()
+			}
 		}
 		rec.Outcome, rec.Pan = "panic", ip
 		w.open = w.open[:len(w.open)-1]
@@ -613,7 +648,11 @@ func (w *World) body(m *mat, args []reflect.Value) []reflect.Value {
 				rec.Err.Inner = foreignCycleError()
 				rec.Err.Cycle = true
 			}
-			outs[m.errIdx].Set(reflect.ValueOf(rec.Err))
+			if f.ErrType == 1 && f.Pool == 0 {
+				outs[m.errIdx].Set(reflect.ValueOf(&TErr{Msg: rec.Err.Error()}))
+			} else {
+				outs[m.errIdx].Set(reflect.ValueOf(rec.Err))
+			}
 		}
 	}
 	if failed {
@@ -729,11 +768,24 @@ func (w *World) step(i int) {
 		var verr error
 		if op.VisErrOf > 0 && op.VisErrOf-1 < i && w.ops[op.VisErrOf-1] != nil {
 			verr = w.ops[op.VisErrOf-1].Err
-			vopts = append(vopts, dig.VisualizeError(verr))
+		}
+		// callers commonly add context to the error of a failed Invoke before they look at it again: what is
+		// handed to VisualizeError / CanVisualizeError is, in half of the cases, that error wrapped once more
+		given := verr
+		if verr != nil {
+			switch (w.h.Opts.RandSeed + int64(i)) % 4 {
+			case 2:
+				given = fmt.Errorf("while starting the application: %w", verr)
+			case 3:
+				given = &ctxErr{"startup", verr}
+			}
+		}
+		if op.VisErrOf > 0 && op.VisErrOf-1 < i && w.ops[op.VisErrOf-1] != nil {
+			vopts = append(vopts, dig.VisualizeError(given))
 		}
 		err, pan := guarded(func() error { return dig.Visualize(w.c, &b, vopts...) })
 		if op.VisErrOf > 0 {
-			_, p2 := guarded(func() error { rec.VisOK = dig.CanVisualizeError(verr); return nil })
+			_, p2 := guarded(func() error { rec.VisOK = dig.CanVisualizeError(given); return nil })
 			if pan == nil {
 				pan = p2
 			}
@@ -806,10 +858,16 @@ func (w *World) stepCall(i int, op *Op, rec *OpRec) {
 			opts = append(opts, dig.As(as...))
 		}
 		opts = append(opts, invalidOpts(op.Invalid)...)
-		var info dig.ProvideInfo
+		info := new(dig.ProvideInfo)
+		var before string
 		if op.Info {
-			info.ID = infoSentinel
-			opts = append(opts, dig.FillProvideInfo(&info))
+			if w.h.Opts.ReuseInfo {
+				info = &w.pInfo
+				before = fmt.Sprint(int64(info.ID), renderInputs(info.Inputs), renderOutputs(info.Outputs))
+			} else {
+				info.ID = infoSentinel
+			}
+			opts = append(opts, dig.FillProvideInfo(info))
 		}
 		if op.Callback && f != nil {
 			opts = append(opts, dig.WithProviderCallback(w.callback(f, op.CbPanic)))
@@ -817,15 +875,27 @@ func (w *World) stepCall(i int, op *Op, rec *OpRec) {
 		err, pan = guarded(func() error { return w.scopeProvide(op.Scope, fnv, opts...) })
 		if op.Info {
 			rec.InfoTouched = info.ID != infoSentinel || info.Inputs != nil || info.Outputs != nil
+			if w.h.Opts.ReuseInfo {
+				rec.InfoTouched = before != fmt.Sprint(int64(info.ID), renderInputs(info.Inputs), renderOutputs(info.Outputs))
+			}
 			rec.InfoID = int64(info.ID)
 			rec.Info = append(renderInputs(info.Inputs), renderOutputs(info.Outputs)...)
 		}
 	case OpDecorate:
 		var opts []dig.DecorateOption
-		var info dig.DecorateInfo
+		if op.Garbage > 0 {
+			opts = w.h.Garbage[op.Garbage-1].DecorateOpts()
+		}
+		info := new(dig.DecorateInfo)
+		var before string
 		if op.Info {
-			info.ID = infoSentinel
-			opts = append(opts, dig.FillDecorateInfo(&info))
+			if w.h.Opts.ReuseInfo {
+				info = &w.dInfo
+				before = fmt.Sprint(int64(info.ID), renderInputs(info.Inputs), renderOutputs(info.Outputs))
+			} else {
+				info.ID = infoSentinel
+			}
+			opts = append(opts, dig.FillDecorateInfo(info))
 		}
 		if op.Callback && f != nil {
 			opts = append(opts, dig.WithDecoratorCallback(w.callback(f, op.CbPanic)))
@@ -833,14 +903,20 @@ func (w *World) stepCall(i int, op *Op, rec *OpRec) {
 		err, pan = guarded(func() error { return w.scopeDecorate(op.Scope, fnv, opts...) })
 		if op.Info {
 			rec.InfoTouched = info.ID != infoSentinel || info.Inputs != nil || info.Outputs != nil
+			if w.h.Opts.ReuseInfo {
+				rec.InfoTouched = before != fmt.Sprint(int64(info.ID), renderInputs(info.Inputs), renderOutputs(info.Outputs))
+			}
 			rec.InfoID = int64(info.ID)
 			rec.Info = append(renderInputs(info.Inputs), renderOutputs(info.Outputs)...)
 		}
 	case OpInvoke:
 		var opts []dig.InvokeOption
-		var info dig.InvokeInfo
+		info := new(dig.InvokeInfo)
 		if op.Info {
-			opts = append(opts, dig.FillInvokeInfo(&info))
+			if w.h.Opts.ReuseInfo {
+				info = &w.iInfo
+			}
+			opts = append(opts, dig.FillInvokeInfo(info))
 		}
 		err, pan = guarded(func() error { return w.scopeInvoke(op.Scope, fnv, opts...) })
 		if op.Info {
@@ -878,6 +954,15 @@ func (w *World) stepCall(i int, op *Op, rec *OpRec) {
 		w.mon.afterCall(i, op, f, rec)
 	}
 }
+
+// ctxErr: a caller-side wrapper type around the error of a failed Invoke.
+type ctxErr struct {
+	ctx string
+	err error
+}
+
+func (e *ctxErr) Error() string { return e.ctx + ": " + e.err.Error() }
+func (e *ctxErr) Unwrap() error { return e.err }
 
 // InjCbPanic is the value a callback panics with (Op.CbPanic).
 type InjCbPanic struct{ Fn int }
